@@ -6,6 +6,9 @@ use crate::props;
 use serde::Serialize;
 
 fn judge<C: Serialize + std::fmt::Debug>(id: &str, sub: &str, case: &C, v: Verdict) {
+    if v.harness_error.is_some() {
+        return;
+    }
     let known = load_known_findings();
     for f in &v.fails {
         if known.iter().any(|k| k.property == id && k.status == "known" && k.signature == f.sig) {
@@ -83,6 +86,11 @@ pub fn one(id: &str, sub: &str, data: &[u8]) {
 fn guarded<C>(id: &str, sub: &str, case: &C, f: fn(&C) -> Verdict) -> Verdict {
     match no_panic(|| f(case)) {
         Ok(v) => v,
+        Err(p) if is_harness_panic(&p) => {
+            let mut v = Verdict::new();
+            v.harness_error = Some(p);
+            v
+        }
         Err(p) => {
             let mut v = Verdict::new();
             let loc = p.rsplit(" @ ").next().unwrap_or("").rsplit("/src/").next().unwrap_or("").split(':').next().unwrap_or("").to_string();
